@@ -60,14 +60,51 @@ def check(ctx, case):
             return
 
 
-def linked_check(ctx, case):
+POOL = [
+    # a trailing parameter with the __optional modifier, and a call that leaves it out
+    "function h ( int a , __optional int b ) -> int { return a ; }\nexport function f ( int p ) -> int { return h ( p ) + h ( p , 2 ) ; }\n",
+    "function h ( float a , __optional float b , __optional int c ) -> float { return a ; }\nexport function f ( float p ) -> float { return h ( p ) ; }\n",
+    # a for loop without increment clause that is continued
+    "export function f ( int p ) -> int { int s = 0 ; for ( int i = 0 ; i < 4 ; ) { i = i + 1 ; if ( i == 2 ) continue ; s = s + i ; } return s + p ; }\n",
+    "export function f ( int p ) -> int { int s = 0 ; for ( ; ; ) { s = s + 1 ; if ( s < 3 ) continue ; break ; } return s + p ; }\n",
+]
+
+
+class PoolCase:
+    def __init__(self, src):
+        self.src = src
+
+    def source(self):
+        return self.src
+
+    def show(self):
+        return self.src
+
+
+def recompiled_check(ctx, cases):
+    """two generated multi-module programs under the same module names, one after the other in ONE directory, each
+    linked with Linker() (the default loader): the second linked program must be well-formed with respect to ITS modules"""
+    work = tempfile.mkdtemp(prefix="c14r_")
+    old = os.getcwd()
+    os.chdir(work)
+    try:
+        for case in cases:
+            linked_check(ctx, case, in_dir=True, default_loader=True)
+    finally:
+        os.chdir(old)
+        shutil.rmtree(work, ignore_errors=True)
+
+
+def linked_check(ctx, case, in_dir=False, default_loader=False):
     """multi-module program (import DAG: chains, diamonds, stars, siblings): every module is compiled separately at
     both optimisation settings, stored as <name>.nslir, only the root is added to the linker; every function of the
     LINKED program must be well-formed, in particular every call names a function of the linked program"""
     from nsl import LinearIR
-    work = tempfile.mkdtemp(prefix="c14_")
+    work = None
     old = os.getcwd()
-    os.chdir(work)
+    if not in_dir:
+        work = tempfile.mkdtemp(prefix="c14_")
+        os.chdir(work)
     try:
         for opt in (False, True):
             ctx.count()
@@ -86,7 +123,7 @@ def linked_check(ctx, case):
                 continue
             try:
                 with adapter.quiet():
-                    linker = LinearIR.Linker(loader=LinearIR.FilesystemModuleLoader())
+                    linker = LinearIR.Linker() if default_loader else LinearIR.Linker(loader=LinearIR.FilesystemModuleLoader())
                     with open(case.modules[-1]["name"] + ".nslir", "rb") as fh:
                         linker.AddModule(pickle.load(fh))
                     program = linker.Link()
@@ -94,6 +131,8 @@ def linked_check(ctx, case):
                 ctx.discard("does-not-link:" + type(e).__name__)
                 continue
             ctx.label("linked-program:" + case.shape)
+            if default_loader:
+                ctx.label("linked-with-the-default-loader")
             ctx.nontrivial((case.show(), opt))
             for name, fn in sorted(program.Functions.items()):
                 problems = irwf.check_function(fn, program.Functions)
@@ -103,11 +142,17 @@ def linked_check(ctx, case):
                         name, sorted(program.Functions), msg, case.show()), case)
                     return
     finally:
-        os.chdir(old)
-        shutil.rmtree(work, ignore_errors=True)
+        if work is not None:
+            os.chdir(old)
+            shutil.rmtree(work, ignore_errors=True)
 
 
 def run(R):
+    from hypothesis import strategies as st
+    R.enum("pool", [PoolCase(s) for s in POOL], check, exhaustive=False)
+    R.hyp("linked-programs-recompiled", st.lists(genmod.modules_case(n_inputs=0), min_size=2, max_size=2), recompiled_check,
+          examples=R.pick(20, 200))
+    R.require("linked-with-the-default-loader")
     R.hyp("linked-programs", genmod.modules_case(n_inputs=0), linked_check, examples=R.pick(80, 500))
     for sh in ("star", "diamond", "chain3"):
         R.require("linked-program:" + sh)
